@@ -21,6 +21,15 @@ Import ListNotations.
 Open Scope Z_scope.
 Require Import MW.Ledger.Model MW.Ledger.Spec MW.Ledger.Run.
 
+(* repairs made in /repo after the first run of this check (KNOWN_FINDINGS.txt, fixed: C08); the
+   model follows the repaired code when the switch is true and the code as found when false *)
+Record fixes := {
+  f_removable : bool;   (* removableTxForRemoveWallet also keeps a transaction that spends another managed wallet's coin *)
+  f_rollback : bool     (* Rollback skips the row bookkeeping of a wallet that has no balance row *)
+}.
+Definition repaired : fixes := {| f_removable := true; f_rollback := true |}.
+Definition as_found : fixes := {| f_removable := false; f_rollback := false |}.
+
 Inductive wst := WReady | WImporting (cursor : Z) | WRemoving.
 
 Record brec := { br_h : Z; br_bid : N; br_txs : list N }.
@@ -192,16 +201,16 @@ Definition pull_back (h : Z) (s : wst) : wst :=
 (* disconnect every synced block of height >= h.
    - a credit is un-spent iff the transaction that spent it is listed in a block record that is
      walked (its debit row names the credit); if the keystore knows the credit's script hash, the
-     owner's entry of the balance map is dereferenced: a wallet without a balance row panics
-     (txstore.go: allMined[ma.Account()].Add on the zero Amount);
+     owner's entry of the balance map is dereferenced: as found, a wallet without a balance row
+     panics (txstore.go: allMined[ma.Account()].Add on the zero Amount); repaired, its rows are skipped;
    - a credit is deleted iff the transaction that created it is listed; a staking/binding credit
      of a keystore-known wallet re-creates a pending game row keyed by that wallet (recorded here
-     for wallets being removed);
+     for wallets being removed; repaired: not for a wallet without a balance row);
    - the block records walked are deleted, the synced chain is cut, rescan cursors are pulled back. *)
-Definition xrollback (st : xstate) (h : Z) : xres xstate :=
+Definition xrollback (fx : fixes) (st : xstate) (h : Z) : xres xstate :=
   let brs := x_brecs st in
   let cs := credits (x_w st) in
-  if existsb (fun c => rb_unspend brs h c &&
+  if negb (f_rollback fx) && existsb (fun c => rb_unspend brs h c &&
                        match key_owner st (c_sh c) with
                        | Some v => negb (memN v (x_balrow st))
                        | None => false
@@ -214,7 +223,9 @@ Definition xrollback (st : xstate) (h : Z) : xres xstate :=
                       if rb_delete brs h c && is_game c
                       then match key_owner st (c_sh c) with
                            | Some v => match status_of st v with
-                                       | Some WRemoving => [(v, c_tx c, c_vout c)]
+                                       | Some WRemoving =>
+                                           if f_rollback fx && negb (memN v (x_balrow st)) then []
+                                           else [(v, c_tx c, c_vout c)]
                                        | _ => []
                                        end
                            | None => []
@@ -230,13 +241,13 @@ Definition xrollback (st : xstate) (h : Z) : xres xstate :=
 
 (* processConnectedBlock: extend the tip, or reorganise (Model.collect finds the fork and the
    blocks to connect); one atomic commit or no change *)
-Definition xprocess (p : params) (n : node) (st : xstate) (b : block) : xres xstate :=
+Definition xprocess (fx : fixes) (p : params) (n : node) (st : xstate) (b : block) : xres xstate :=
   if (snd (tip (x_w st)) =? b_prev b)%N then xconnect_all p n st [b]
   else
     match collect n (x_w st) (S (Z.to_nat (b_height b))) b [] with
     | None => XErr
     | Some (fork, bs) =>
-        match xrollback st (fork + 1) with
+        match xrollback fx st (fork + 1) with
         | XOk st1 => xconnect_all p n st1 bs
         | XErr => XErr
         | XPanic => XPanic
